@@ -8,7 +8,9 @@ use crate::{
     CompilationError, VecErr,
 };
 
-use super::{new_err, Callable, Compile, FunctionArguments, TypeLayout};
+use super::{
+    new_err, Callable, Compile, Dependencies, Dependency, FunctionArguments, TypeLayout,
+};
 
 #[derive(Debug)]
 pub(crate) enum DotLookupOption {
@@ -78,6 +80,18 @@ impl Compile for DotLookupOption {
                 Ok(result)
             }
         }
+    }
+}
+
+impl Dependencies for DotChain {
+    fn dependencies(&self) -> Vec<Dependency> {
+        self.links
+            .iter()
+            .flat_map(|link| match link {
+                DotLookupOption::FunctionCall { arguments, .. } => arguments.net_dependencies(),
+                DotLookupOption::Name { .. } => vec![],
+            })
+            .collect()
     }
 }
 
